@@ -89,6 +89,8 @@ func checkC03(c *core.Ctx) {
 	c.Decide("in CommitTransaction the value stored in tx.PostCommitVolumes is a Copy taken before the unwinding loop; the loop iterates a reversed private copy of the postings, snapshots the destination then the source account's volumes before subtracting the same posting from the same side (Input for destination, Output for source), marks IsSource only on the source move, and reverses the moves back before inserting them; SubtractPostings subtracts (Output,Source) and (Input,Destination) on a copy; AddInput/AddOutput add to the side they name; the map returned by UpdateVolumes shares the *big.Int pointees with the model rows bun scans RETURNING into; no statement anywhere updates transactions.post_commit_volumes or moves.post_commit_volumes")
 	c.NotDecided("row order of RETURNING versus the model slice and that bun scans into an existing *big.Int (driver behaviour); numeric results")
 	c.Trust("bun Model+Returning scans into the model elements in statement order")
+	// the volumes CommitTransaction starts from are those VolumeUpdates folded (shared with C01)
+	ruleVolumeUpdatesFlow(c)
 	ruleUnwindingLoop(c)
 	ruleSubtractPostings(c)
 	ruleAddInputOutputHelpers(c)
